@@ -343,10 +343,16 @@ def extract_solidity(root):
     p = os.path.join(root, "ethereum/contracts/Messages.sol")
     src = strip_comments(open(p).read())
     src = re.sub(r"/\*.*?\*/", "", src, flags=re.S)
-    m = re.search(r"function\s+quorum\s*\(\s*uint\s+(\w+)\s*\)[^{]*\{\s*return\s+([^;]+);", src)
+    # quorum(): zero or more require(cond[, "message"]); statements, then return <expr>;
+    m = re.search(r"function\s+quorum\s*\(\s*uint(?:256)?\s+(\w+)\s*\)[^{]*\{((?:\s*require\s*\([^;]*\)\s*;)*)\s*return\s+([^;]+);\s*\}", src)
     if not m:
-        raise ExtractError("Messages.sol: quorum() not found")
-    quorum = {"param": m.group(1), "expr": P(tokenize(m.group(2))).expr()}
+        raise ExtractError("Messages.sol: quorum() not found (expected require(...); statements followed by return <expr>;)")
+    requires = []
+    for rm in re.finditer(r"require\s*\((.*?)\)\s*;", m.group(2), flags=re.S):
+        cond = rm.group(1)
+        cm = re.match(r'^(.*?)(?:,\s*"[^"]*"\s*)?$', cond, flags=re.S)
+        requires.append(P(tokenize(cm.group(1))).expr())
+    quorum = {"param": m.group(1), "expr": P(tokenize(m.group(3))).expr(), "requires": requires}
     m = re.search(r"function\s+parseVM\s*\(", src)
     if not m:
         raise ExtractError("Messages.sol: parseVM not found")
